@@ -57,6 +57,15 @@ type ReplayFile struct {
 	Minimised bool       `json:"minimised"`
 	MinInfo   string     `json:"minimisation,omitempty"`
 	RaceLog   string     `json:"race_report,omitempty"`
+	// History: the failure depends on package-level state of the code under test
+	// that earlier runs of the same worker process left behind (e.g. a
+	// sync.Pool): replay first re-executes runs 0..run-1 of that worker (they
+	// are a pure function of verif_seed, worker and run index), then the
+	// recorded scenario.
+	History bool `json:"replay_worker_history_first,omitempty"`
+	// FreshConfirmed: the file was re-executed in a fresh OS process by the
+	// worker that wrote it and failed the same way.
+	FreshConfirmed bool `json:"confirmed_in_fresh_process,omitempty"`
 	Scenario  Scenario   `json:"scenario"`
 }
 
